@@ -40,10 +40,8 @@ impl<'a> EqualityBuilder<'a> {
                 }
             }
         }
-        let mut res = true;
-        for i in 0..scalars.len() - 1 {
-            res &= scalars[i] == scalars[i + 1];
-        }
+        // (an empty reference list has nothing to compare: `scalars.len() - 1` would underflow)
+        let res = scalars.windows(2).all(|w| w[0] == w[1]);
         if !res {
             return Err(Error::InvalidClaimData(
                 "equality statement - claims are not all the same",
